@@ -56,7 +56,7 @@ pub fn sym_state<S: Src, const C: usize>(s: &mut S) -> (Tab, Pre<C>) {
 /// constant for the solver; None = solver-chosen occupancy
 pub fn sym_state_mask<S: Src, const C: usize>(s: &mut S, mask: Option<u32>) -> (Tab, Pre<C>) {
     let mut t = Tab::with_capacity(C, SysAllocator).unwrap();
-    assert!(t.capacity() == C, "C13.with_capacity.pot_capacity_kept");
+    assert!(t.capacity() == C, "harness.c13.capacity_as_requested");
     let mut pre = Pre::<C> {
         occ: [false; C],
         keys: [0; C],
@@ -96,8 +96,8 @@ pub fn sym_state_mask<S: Src, const C: usize>(s: &mut S, mask: Option<u32>) -> (
 
 pub fn check_inv<S: Src>(t: &Tab, s: &mut S) {
     let cap = t.capacity();
-    assert!(cap <= MAXC, "C13.harness.capacity_bound");
-    assert!(cap >= 2 && cap & (cap - 1) == 0, "C13.inv.capacity_is_power_of_two");
+    assert!(cap <= MAXC, "harness.c13.capacity_bound");
+    assert!(cap >= 2 && cap & (cap - 1) == 0, "harness.c13.capacity_is_power_of_two");
     let mut n = 0;
     let mut j = 0;
     while j < cap {
